@@ -4,6 +4,9 @@ and refresh `caught_by` / `alarms` in the meta.json (the first evaluation is kep
 import sys, os, subprocess, json, glob, re, shutil, tempfile
 from concurrent.futures import ThreadPoolExecutor
 HERE = os.path.dirname(os.path.dirname(os.path.abspath(__file__)))
+sys.path.insert(0, os.path.join(HERE, 'tools'))
+import oldbase_filter
+res_base = {}
 kind = sys.argv[1] if len(sys.argv) > 1 else 'seeded'
 ids = sys.argv[2:] or sorted(os.listdir(os.path.join(HERE, kind)))
 CHECKS = sorted(os.path.basename(f)[:-3] for f in glob.glob(os.path.join(HERE, 'rules', 'C[0-9][0-9].py')))
@@ -21,17 +24,22 @@ def one(i):
         return i, None
     wt = tempfile.mkdtemp(prefix='rk-')
     try:
-        sh('git -C /repo archive HEAD src Cargo.toml benches tests | tar -x -C %s; cp /repo/Cargo.lock %s/' % (wt, wt))
-        rc, out = sh('git init -q . && git apply --whitespace=nowarn %s' % patch, cwd=wt)
+        rc, out = sh('%s %s %s' % (os.path.join(HERE, 'tools', 'mktree.sh'), patch, wt))
         if rc != 0:
             return i, {'error': 'patch does not apply: ' + out[-300:]}
+        oldbase = os.path.exists(os.path.join(wt, '.oldbase'))
         env = dict(os.environ, BP_REPO=wt, BP_EVIDENCE_DIR=os.path.join(wt, 'evidence'))
         res = {}
         for c in CHECKS:
             r = subprocess.run([os.path.join(HERE, 'check'), c], env=env, cwd=HERE, stdout=subprocess.PIPE, stderr=subprocess.STDOUT, text=True)
-            keys = sorted(set(re.findall(r'rule=\S+ key=(.*)', r.stdout)))
-            if r.returncode != 0:
+            txt = r.stdout
+            if oldbase:
+                txt, _ = oldbase_filter.filter_text(txt)
+            keys = sorted(set(re.findall(r'rule=\S+ key=(.*)', txt)))
+            if r.returncode != 0 and keys:
                 res[c] = {'exit': r.returncode, 'keys': [k[:160] for k in keys][:8]}
+        if oldbase:
+            res_base[i] = True
         return i, res
     finally:
         shutil.rmtree(wt, ignore_errors=True)
@@ -43,6 +51,7 @@ with ThreadPoolExecutor(max_workers=6) as ex:
             continue
         mp = os.path.join(HERE, kind, i, 'meta.json')
         meta = json.load(open(mp)) if os.path.exists(mp) else {}
+        meta['base'] = '05a894e (does not apply to HEAD after the fix commits 6d5d52c, 8878a65)' if res_base.get(i) else 'HEAD'
         if kind == 'seeded':
             if 'initially_caught_by' not in meta and 'caught_by' in meta:
                 meta['initially_caught_by'] = meta['caught_by']
